@@ -23,12 +23,13 @@ def run_family(prop: str, which: str, argv: List[str], doms: str, nontrivial, ru
         inputs = rb.domain_inputs(args.tier, args.seed, doms)
     d = rb.workdir(prop)
     try:
+        res = []
         if inputs:
             res = rb.record_domain(inputs, d, jobs=args.jobs, shards=args.jobs, stages=True, hook=hook)
             verdicts = evaluate(res, which, args.jobs)
             account(rep, res, verdicts, nontrivial, rule, inputs)
         if extra is not None:
-            extra(rep, args, d)
+            extra(rep, args, d, res)
         if prop in ("C03", "C05") and not args.replay:
             from . import designfam
 
